@@ -130,7 +130,11 @@ def random_script(rng, level, n, beyond=False, g=None):
                 deliver(st, num, st.ts)                                   # duplicate
         elif r < 0.82 and st.pending and st.hi is not None:
             num, ts = st.pending.pop(rng.randrange(len(st.pending)))
-            if beyond or st.hi - num < HIST:                              # late arrival inside the history
+            if beyond:
+                deliver(st, num, ts)
+            elif st.hi - num < HIST and num - st.hi <= HIST:              # late arrival inside the history (or still ahead)
+                if num - st.rep > HIST:
+                    report()
                 deliver(st, num, ts)
         elif r < 0.84 and st.hi is not None:
             back = rng.choice([1, 2, HIST - 1]) if not beyond else rng.choice([HIST, HIST + 1, 20000, 32768])
@@ -166,7 +170,7 @@ def saturation_script(rng, level, jumps):
         now += rng.choice([20, 1000, 9000])
         ts += rng.choice([900, 90000, 2000000])
         extra = rng.random() < 0.05
-        pos += HIST - 1 if extra else HIST
+        pos += HIST - (1 if extra else 0) - (1 if i == 0 else 0)   # the first interval starts one number before the first packet
         steps.append(ev("rtp", s=1, w=pos % 65536, ts=ts, t=now))
         if extra:
             pos += 1
@@ -176,6 +180,32 @@ def saturation_script(rng, level, jumps):
         now += rng.choice([0, 1, 999, 8000])
         steps.append(ev("report", t=now))
     return wrap(level, -1000, 0, steps)
+
+
+def inside_history(script):
+    """True iff no report interval of the script is longer than the history and no packet arrives more than the history
+    behind the highest, i.e. none of the deviation predicates of ReceiverReport.tla can hold (generator self-check)."""
+    hi, rep = {}, {}
+    for e in script["steps"]:
+        s = e["s"]
+        if e["a"] in ("bind", "unbind"):
+            hi.pop(s, None)
+            rep.pop(s, None)
+        elif e["a"] == "rtp":
+            if s not in hi:
+                hi[s], rep[s] = e["w"], e["w"] - 1
+            else:
+                d = (e["w"] - hi[s]) % 65536
+                if 0 < d < 32768:
+                    hi[s] += d
+                elif (65536 - d) % 65536 >= HIST:
+                    return False
+        elif e["a"] == "report":
+            for k in hi:
+                if hi[k] - rep[k] > HIST:
+                    return False
+                rep[k] = hi[k]
+    return True
 
 
 def nontrivial(evs):
@@ -232,6 +262,8 @@ def run(ctx):
     if not ctx.quick:
         rs.append(saturation_script(rng, "icpt", 2100))
         rs += [random_script(rng, "stream", 20000) for _ in range(4)]
+    if not all(inside_history(sc) for sc in rs):
+        raise vlib.Infra("a random history meant to stay inside the 8192-number history leaves it (generator bug)")
     evs = run_batch(ctx, rs, "T-random")
     if evs is not None and not ctx.violations:
         top = max([b["tot"] for e in evs if e["a"] == "report" for b in e["out"]] or [0])
